@@ -128,6 +128,9 @@ let place st (path : str) : string =
     | Some d -> cpath_text (d @ [str_of base])
     | None -> "-"
 
+(* outcomes of the sendfile calls of the next copy (op `inject`): -1 fails, n >= 0 moves at most n bytes *)
+let oracle : xfer list ref = ref []
+
 let fs_op (mode : [`Model | `Spec]) (st : state) toks : state =
   let fin ?(pre = []) ?(post = []) st' res =
     (match mode with
@@ -147,7 +150,9 @@ let fs_op (mode : [`Model | `Spec]) (st : state) toks : state =
   | ["mkf"; a; c] -> let (s, e) = k_mkfile st (p a) (p c) in fin s (e01 e)
   | ["mkfbig"; a; seed; n] -> let (s, e) = k_mkfile st (p a) (big (int_of_string seed) (int_of_string n)) in fin s (e01 e)
   | ["mkl"; t; a] -> let (s, e) = k_symlink st (p t) (p a) in fin s (e01 e)
-  | "inject" :: _ -> fin st "-"
+  | "inject" :: ks ->
+      oracle := List.map (fun k -> let k = int_of_string k in if k < 0 then XFail else XAtMost (nat_of_int k)) ks;
+      fin st "-"
   | ["open"; h; a; fl] ->
       let fl = int_of_string fl in
       let (s, b) = f_open st (nat h) (p a) (fl land 1 <> 0) (fl land 2 <> 0) (fl land 4 <> 0) (fl land 8 <> 0) in
@@ -175,8 +180,9 @@ let fs_op (mode : [`Model | `Spec]) (st : state) toks : state =
       let (s, r) = f_rename st (p a) (p b) (fie = "1") in
       fin ~pre:[now "s" false (p a); now "e" false (p b); "p=" ^ place st (p b)] ~post:["d", false, p b] s (b01 r)
   | ["copy"; a; b; fie] ->
-      let (s, r) = f_copy st (p a) (p b) (fie = "1") in
-      fin ~pre:[now "s" true (p a); now "e" true (p b)] ~post:["d", true, p b] s (b01 r)
+      let (s, r) = f_copy_o !oracle st (p a) (p b) (fie = "1") in
+      oracle := [];
+      fin ~pre:[now "s" true (p a); now "e" true (p b); now "l" false (p b)] ~post:["d", true, p b] s (b01 r)
   | ["exists"; a] -> fin ~pre:[now "s" true (p a)] st (b01 (d_exists st (p a)))
   | ["create"; a] ->
       let (s, b) = d_create (create_fuel (p a)) st (p a) in
